@@ -16,6 +16,8 @@ func genAll() {
 	genWalk()
 	genRestorer()
 	genPoints()
+	genClone()
+	genData()
 }
 
 // ---------------------------------------------------------------------------------
